@@ -182,8 +182,63 @@ type Cond struct {
 	At    *ssa.BasicBlock // the block ending in the If
 }
 
-// DominatingConds lists the branch conditions whose edge dominates b.
+// DominatingConds lists the branch conditions whose edge dominates b. Boolean phis that go/ssa builds for
+// `x && y` / `x || y` used as values are decomposed into their operands.
 func DominatingConds(b *ssa.BasicBlock) []Cond {
+	raw := rawDominatingConds(b)
+	var out []Cond
+	seen := map[ssa.Value]bool{}
+	var expand func(c Cond, depth int)
+	expand = func(c Cond, depth int) {
+		out = append(out, c)
+		ph, ok := c.Val.(*ssa.Phi)
+		if !ok || depth > 6 || seen[ph] {
+			return
+		}
+		seen[ph] = true
+		// && : every edge but one is the constant false; || : every edge but one is the constant true
+		var val ssa.Value
+		var pred *ssa.BasicBlock
+		nconst := 0
+		kind := -1
+		for i, e := range ph.Edges {
+			if k, isC := ConstBool(e); isC {
+				kk := 0
+				if k {
+					kk = 1
+				}
+				if kind == -1 {
+					kind = kk
+				} else if kind != kk {
+					return
+				}
+				nconst++
+				continue
+			}
+			if val != nil {
+				return
+			}
+			val = e
+			pred = ph.Block().Preds[i]
+		}
+		if val == nil || nconst == 0 {
+			return
+		}
+		if (kind == 0 && c.Truth) || (kind == 1 && !c.Truth) {
+			// all operands hold (&&) / all operands fail (||)
+			expand(Cond{val, c.Truth, pred}, depth+1)
+			for _, pc := range rawDominatingConds(pred) {
+				expand(pc, depth+1)
+			}
+		}
+	}
+	for _, c := range raw {
+		expand(c, 0)
+	}
+	return out
+}
+
+func rawDominatingConds(b *ssa.BasicBlock) []Cond {
 	var out []Cond
 	for _, a := range b.Parent().Blocks {
 		if len(a.Instrs) == 0 {
